@@ -2,8 +2,12 @@
 from . import families as F
 from .simprops import generic_run, sizes, sim_replay
 from .p_queue import run_queue_correspondence
+from .p_session import run_session_correspondence
+def both(ctx):
+    run_queue_correspondence(ctx)
+    run_session_correspondence(ctx)
 LABELS = {"C11", "C01", "C03", "C05", "C06", "C18", "PANIC"}
 def run(ctx):
-    generic_run(ctx, LABELS, extra=run_queue_correspondence, plan=[("delay", lambda: F.fam_delay(ctx.rng, sizes(ctx, 150, 1500)))], needed_consts=["INPUT_QUEUE_LENGTH"])
+    generic_run(ctx, LABELS, extra=both, plan=[("delay", lambda: F.fam_delay(ctx.rng, sizes(ctx, 150, 1500)))], needed_consts=["INPUT_QUEUE_LENGTH"])
 def replay(ctx, path):
     return sim_replay(ctx, path, LABELS)
